@@ -5,6 +5,8 @@ FS = "frequenz.sdk.timeseries.formula_engine._formula_steps"
 RS = "frequenz.sdk.timeseries._resampling"
 BPM = "frequenz.sdk.timeseries.battery_pool._metric_calculator"
 PVM = "frequenz.sdk.microgrid._power_distributing._component_managers._pv_inverter_manager._pv_inverter_manager:PVManager"
+FEV = "frequenz.sdk.timeseries.formula_engine._formula_evaluator"
+FENG = "frequenz.sdk.timeseries.formula_engine._formula_engine"
 ACTM = "frequenz.sdk.actor._actor"
 BGSM = "frequenz.sdk.actor._background_service"
 PDA = "frequenz.sdk.microgrid._power_distributing.power_distributing:PowerDistributingActor"
@@ -278,5 +280,23 @@ PROPS = {
                      "streams are scripted collaborators implementing the channel model (receive returns the next sample or "
                      "raises ReceiverStoppedError / ReceiverError)",
                      "end-to-end 'output equals the true value' additionally needs C05/C06; not re-proved here"],
+    ),
+    "C06": dict(
+        modules=["fe_evaluator"],
+        contracts=[f"{FEV}:FormulaEvaluator.apply", f"{FENG}:FormulaEngine3Phase._run"],
+        lemmas=[],
+        bounded=[],
+        level="proof",
+        explanation="FormulaEvaluator.apply (with _synchronize_metric_timestamps inlined) against two scripted input streams on a "
+                    "common grid with arbitrary first timestamps: on return both inputs the steps read are the samples stamped "
+                    "with the emitted timestamp; first run lands on the latest first timestamp reading nothing beyond it (loop "
+                    "invariant for the drain loop); afterwards timestamps advance by exactly one step and the streams stay "
+                    "aligned (class invariant). FormulaEngine3Phase._run: loop invariant 'never mixes timestamps' - holds only "
+                    "for phase streams that start aligned; the unaligned start is a known finding.",
+        assumptions=[EXTRACTION,
+                     "stream model (assumed): each receiver delivers first + k*step in order; delivery interleavings are "
+                     "irrelevant under it (receive returns the same sample whatever the interleaving)",
+                     "two input streams (structural bound); timestamps counted in grid steps; asyncio.wait(ALL_COMPLETED) model",
+                     "not under contract: FormulaEngine._run (one send per successful apply)"],
     ),
 }
